@@ -48,12 +48,20 @@ op_reg = st.tuples(st.just("register"), st.integers(0, 2))
 op_reg_race = st.tuples(st.just("register"), st.integers(0, 2), st.integers(0, 2), st.sampled_from(TYPES))
 op_next = st.tuples(st.just("next"))
 op_shut = st.tuples(st.just("shutdown"))
+# a post to an unregistered computation that "another thread" registers right after post_msg found it unknown and
+# before post_msg parked the message (the harness performs the registration when post_msg subscribes to the computation)
+op_post_race = st.tuples(st.just("post_race_reg"), st.integers(0, 2), st.integers(0, 2), st.sampled_from(TYPES))
 
 
 @st.composite
 def seq_cases(draw):
-    ops = draw(st.lists(st.one_of(op_post, op_post, op_post, op_reg, op_reg_race, op_next, op_next), min_size=1,
-                        max_size=40))
+    # the two interleaved operations hit listed findings, which ends the comparison for that history: keep them to a
+    # quarter of the histories so that the rest is explored to the end
+    if draw(st.integers(0, 3)) == 0:
+        pool = st.one_of(op_post, op_post, op_post, op_post, op_reg, op_reg_race, op_post_race, op_next, op_next)
+    else:
+        pool = st.one_of(op_post, op_post, op_post, op_reg, op_next, op_next)
+    ops = draw(st.lists(pool, min_size=1, max_size=40))
     ops = [list(o) for o in ops]
     if draw(st.integers(0, 2)) == 0:
         pos = draw(st.integers(0, len(ops)))
@@ -104,6 +112,14 @@ def run_seq(case):
                 armed.pop(0)()
             return orig_cb(evt, computation, agt)
         msging._on_computation_registration = racing_cb     # before any subscription stores the bound method
+        armed_sub = []      # registrations "another thread" performs while post_msg is between lookup and parking
+        orig_sub = disc.subscribe_computation
+
+        def racing_sub(*a, **k):
+            while armed_sub:
+                armed_sub.pop(0)()
+            return orig_sub(*a, **k)
+        disc.subscribe_computation = racing_sub
         disc.register_agent("a1", comm, publish=False)
         for d in case["pre_registered"]:
             disc.register_computation(DESTS[d], "a1", publish=False)
@@ -118,6 +134,7 @@ def run_seq(case):
     big_release = False
     posted_payload = {}
     race_ids = set()
+    parked_ids = set()
 
     def enqueue(ty, mid):
         arrival[0] += 1
@@ -131,6 +148,8 @@ def run_seq(case):
             if full is not None:
                 return "%s: next_msg returned %r but the model queue is empty" % (where, full)
             return None
+        if exp[2] in parked_ids and (full is None or full[2].content != exp[2]):
+            labels.append("parked-forever-after-registration-inside-post")
         if full is None:
             return "%s: next_msg returned nothing but message #%d (type %d) is queued" % (where, exp[2], exp[0])
         src, dst, msg, ty = full
@@ -200,6 +219,36 @@ def run_seq(case):
                     # posted after the held messages: the model queues it behind them
                     enqueue(racing[2], racing[0])
                     race_ids.add(racing[0])
+        elif op[0] == "post_race_reg":
+            _, s, d, ty = op
+            dn = DESTS[d]
+            nid[0] += 1
+            mid = nid[0]
+            posted_payload[mid] = (SENDERS[s], dn, ty)
+            interleaved = dn not in registered and not shutdown
+            if interleaved:
+                armed_sub.append(lambda dn=dn: disc.register_computation(dn, "a1", publish=False))
+                labels.append("registration-inside-post") if "registration-inside-post" not in labels else None
+            with under_test():
+                if ty is None:
+                    msging.post_msg(SENDERS[s], dn, Message("probe", mid))
+                else:
+                    msging.post_msg(SENDERS[s], dn, Message("probe", mid), ty)
+            del armed_sub[:]
+            if shutdown:
+                continue
+            if interleaved:
+                # the registration ran first: messages held so far are released, then this one is due as well
+                registered.add(dn)
+                for hty, hmid in held[dn]:
+                    enqueue(hty, hmid)
+                held[dn] = []
+                enqueue(ty, mid)
+                parked_ids.add(mid)
+            elif dn in registered:
+                enqueue(ty, mid)
+            else:
+                held[dn].append((ty, mid))
         elif op[0] == "next":
             if len(set(q[0] for q in queue)) >= 2:
                 multi_fetch = True
@@ -345,6 +394,9 @@ def run_threads(case):
             return "message #%d posted after clean_shutdown() was handled" % mid, nontrivial, labels
     for mid, sender, dest, ty, phase in posted:
         if phase != "after" and mid not in handled:
+            if dest == late and any(f[1] == late for f in list(msging._failed)):
+                # still parked in Messaging's retry list although its destination is registered: tag for classify
+                labels = labels + ["parked-forever-for-late-destination"]
             return "message #%d (%s -> %s, type %r, %s) posted before shutdown was never handled; %d of %d handled" % (
                 mid, sender, dest, ty, phase, len(handled), len(posted)), nontrivial, labels
     order = [mid for _, _, mid, _ in log]
@@ -390,6 +442,13 @@ def classify(case, out):
         return "C18-late-registration-overtake"
     if case["mode"] == "seq" and "order-break-at-racing-registration" in out.labels:
         return "C18-late-registration-overtake"
+    # The registration completes between post_msg's failed lookup and the parking of the message: the one-shot
+    # subscription is taken too late and the message stays in Messaging's retry list for ever.
+    if case["mode"] == "threads" and case.get("late") is not None \
+            and "parked-forever-for-late-destination" in out.labels:
+        return "C18-late-registration-lost-message"
+    if case["mode"] == "seq" and "parked-forever-after-registration-inside-post" in out.labels:
+        return "C18-late-registration-lost-message"
     return None
 
 
